@@ -217,6 +217,22 @@ def gen(rng, idx, tier):
             opts["variableFeatures"] = rng.random() < 0.5
         if rng.random() < 0.3:
             case["arg_filters"] = ["PropagateAnchorsFilter"]
+        sp = (case["ds"].get("meta") or {}).get("sparse")
+        if sp and rng.random() < 0.5:
+            # a sparse master whose working glyph set is EMPTY (empty layer, or every glyph of
+            # the layer non-exported) together with filters that have no interpolatable variant
+            # and are therefore run master by master
+            host = case["ds"]["ufos"][sp["host"]]
+            if rng.random() < 0.5:
+                host["layers"][sp["layer"]] = []
+                case["sparse_stratum"] = "empty_layer"
+            else:
+                case["ds"].setdefault("lib", {})["public.skipExportGlyphs"] = list(sp["glyphs"])
+                case["sparse_stratum"] = "all_skipped_layer"
+            case["arg_filters"] = rng.sample(["SortContoursFilter", "ReverseContourDirectionFilter",
+                                              "TransformationsFilter"], rng.randint(1, 2))
+            if "TTF" in case["func"] and rng.random() < 0.5:
+                opts["convertCubics"] = False
         case["history"] = rng.choice(["once", "once", "twice"])
         case["opts"] = opts
     elif r < 0.78:
@@ -361,6 +377,8 @@ def _run(case, bump, counters, tmp):
     elif "ds" in case:
         doc, fonts = build_designspace(case["ds"], lib)
         bump("family_runs")
+        if case.get("sparse_stratum"):
+            bump("sparse_" + case["sparse_stratum"])
     else:
         spec = case["ufo"]
         if case.get("lib_filters"):
